@@ -29,7 +29,7 @@ ALPH = "ACGT"
 
 
 def bound(tier):
-    return ("L=6: all 2-letter start sequences + 8 four-letter ones; 6 motif sets x 2 models" if tier == "quick" else
+    return ("L=6: all 2-letter start sequences + 8 four-letter ones; 6 motif sets x 2 models, output mask on/off for every other motif set" if tier == "quick" else
             "L in {6,8}: all 2-letter start sequences + 8 four-letter ones; 9 motif sets x 3 models x mask on/off; batch sizes {1,3,32}")
 
 
@@ -74,7 +74,7 @@ def shards(tier, seed):
             for mi in msets:
                 if all(len(m) > L for m in MOTIF_SETS[mi]):
                     continue
-                for masked in ((False,) if tier == "quick" else (False, True)):
+                for masked in (((False, True) if mi % 2 == 0 else (False,)) if tier == "quick" else (False, True)):
                     out.append(dict(name="L%d/%s/m%d/%s" % (L, kind, mi, "mask" if masked else "nomask"), L=L, kind=kind,
                                     mi=mi, masked=masked, weight=2 ** L * len(MOTIF_SETS[mi])))
     return out
